@@ -37,6 +37,11 @@ CHECKS = [
      "trusts: libc interposition reaching every file I/O entry point used (syscall counters in evidence), tmpfs as the disk, the reference normal form in sim/src/model/lp.rs; domains compared as sets",
      "deterministic simulation with fault injection (simulated disk via libc interposition, seeded fault plans, reference-model oracle, shrinking + replay)",
      "DESIGN.md section 3 C18"),
+ chk("C19", "exploration",
+     "seeded search over (abstract QP for a random type code, layout, entry point, chunking, fault plan, truncation point, corruption): an independent renderer writes the QPLIB text; qplib::load_file reads it from the simulated disk (QplibFile::from_reader from a simulated stream) under short reads, EINTR, EIO, open failure, truncation at byte k (every k for N files, enumerated) and one-token corruptions. Oracle: transient faults => Ok and exactly the expected problem (exact polynomial model with the 1/2 x'Qx convention); EIO => Err or equal; truncation before the last required line => Err (no panic) carrying a line number <= lines present + 1; corrupted token => Err carrying that token's line; table level: Err or the fault-free tables.",
+     "trusts: the reference model and renderer in sim/src/model/qplib.rs and the exact fixed-point polynomial model in model/poly.rs; single-blank layouts only (see evidence assumptions)",
+     "deterministic simulation with fault injection (simulated disk/stream, truncation = crash point of the producer, seeded read-fault schedules, reference-model oracle, shrinking + replay)",
+     "DESIGN.md section 3 C19"),
 ]
 m = {
  "version": 1,
